@@ -111,7 +111,7 @@ pub fn run_extra(kind: &str, l: &[Sx]) -> String {
         "wide" => wide_case(l),
         "datefmt" => crate::oracles::datefmt_case(l),
         "rtext" => rtext_case(l),
-        "re" => crate::oracles::re_case(l),
+        "re" | "rex" => crate::oracles::re_case(l),
         "relit" => crate::oracles::relit_case(l),
         "reinv" => crate::oracles::reinv_case(l),
         "script" => script_case(l),
